@@ -91,6 +91,27 @@ theorem expansion_flat (wd : Word) (p : Part) (cwd : String) (r : Bool) :
     rw [L_texts]
     exact S_flatMap_congr _ _ _ (fun t _ => (scanArg_some rec false t cwd r).symm)
 
+/-- the two passes of step 3, as actions: the join of the verdict on the words as spelled and on the words after
+    quote removal (when quote removal changes nothing the two coincide; the second is dropped from the list when it is
+    not stricter, which leaves the join unchanged) -/
+theorem S_cmdDecisions (words unquoted : List String) (b : Nat) (cwd : String) (r : Bool) :
+    S (cmdDecisions w rec h words unquoted b cwd r)
+      = Action.sup (simpleCmd w rec h (words.length + 1) (words.drop b) cwd r).action
+          (simpleCmd w rec h (unquoted.length + 1) (unquoted.drop b) cwd r).action := by
+  unfold cmdDecisions
+  by_cases hq : unquoted = words
+  · subst hq
+    simp
+  · have hq' : (unquoted != words) = true := by simpa using hq
+    simp only [hq', Bool.true_and]
+    split
+    · simp
+    · rename_i hlt
+      simp only [S_cons, S_nil, Action.sup_allow_right]
+      generalize (simpleCmd w rec h (words.length + 1) (words.drop b) cwd r).action = a at hlt ⊢
+      generalize (simpleCmd w rec h (unquoted.length + 1) (unquoted.drop b) cwd r).action = c at hlt ⊢
+      cases a <;> cases c <;> simp [Action.rank, Action.sup] at hlt ⊢
+
 mutual
 
 theorem node_flat : ∀ (n : Node) (cwd : String) (r : Bool),
@@ -98,7 +119,7 @@ theorem node_flat : ∀ (n : Node) (cwd : String) (r : Bool),
   | .command ws rs, cwd, r => by
     have h1 := cmdWords_flat (mkCmdCtx w ws) ws 0 cwd r
     have h2 := redirects_flat rs cwd r
-    simp only [aNode, flat, L_append, L_cons, L_nil, atomDecisions, properDecisions,
+    simp only [aNode, flat, L_append, L_cons, L_nil, atomDecisions, properDecisions, unquotedDecisions,
       World.syn_hasHandler, World.syn_simpleSafe]
     have hb : (mkCmdCtx w ws).base = (mkCmdCtx w ws).words.getD (mkCmdCtx w ws).baseIdx "" := rfl
     split
@@ -111,7 +132,7 @@ theorem node_flat : ∀ (n : Node) (cwd : String) (r : Bool),
       · rw [combine_S]; simp [h1, h2, Action.sup_assoc]
       · split
         · rw [combine_S]; simp [h1, h2, Action.sup_assoc]
-        · rw [combine_S]; simp [h1, h2, Action.sup_assoc]
+        · rw [combine_S]; simp [h1, h2, Action.sup_assoc, S_cmdDecisions]
   | .pipeline cmds, cwd, r => by
     simp only [aNode, flat]
     rw [rejoin_S, nodes_flat cmds cwd r]
